@@ -52,6 +52,10 @@ Comps == <<
   Comp("int-and-number", << SInt, SNum >>, << >>),
   Comp("number-and-uint8", << SNum, [type |-> "integer", format |-> "uint8"] >>, << >>),
   Comp("number-and-typelist", << SNum, [types |-> <<"string", "integer">>] >>, << >>),
+  (* recorded findings of the thorough pools, kept in the quick tier *)
+  Comp("arr-items-conflict", << SArr(SInt), SArr(SStr) >>, << >>),
+  Comp("uint8-and-int32", << [type |-> "integer", format |-> "uint8"], [type |-> "integer", format |-> "int32"] >>, << >>),
+  Comp("nonzero-enum-with-zero", << [type |-> "number", minimum |-> JInt(1)], [type |-> "integer", enum |-> <<JInt(0), JInt(7), JInt(300)>>] >>, << >>),
   Comp("unsat-types", << SStr, SInt >>, << >>),
   Comp("unsat-enums", << EnumS(<<JS(<<"a">>)>>), EnumS(<<JS(<<"b">>)>>) >>, << >>),
   Comp("unsat-required-false", << SObj(Props1("a", SFalse), {}), SObj(Props1("a", SInt), {"a"}) >>, << >>),
@@ -71,6 +75,13 @@ ScalarPool == << SStr, SInt, SNum, EnumS(<<JS(<<"a">>), JS(<<"b">>)>>), EnumS(<<
                  [type |-> "string", minLength |-> 1], [type |-> "string", maxLength |-> 1],
                  [types |-> <<"string", "integer">>], [enum |-> <<JInt(1), JInt(2), JInt(3)>>],
                  [enum |-> <<JInt(1), JS(<<"a">>)>>], [type |-> "integer", format |-> "uint8"] >>
+(* numeric bounds, formats and multiples; array shapes *)
+NumPool == << SInt, SNum, [type |-> "integer", minimum |-> JInt(0)], [type |-> "integer", maximum |-> JInt(10)],
+              [type |-> "integer", minimum |-> JInt(5), maximum |-> JInt(20)], [type |-> "number", minimum |-> JInt(1)],
+              [type |-> "integer", format |-> "uint8"], [type |-> "integer", format |-> "int32"],
+              [type |-> "integer", exclusiveMaximum |-> JInt(10)], [type |-> "integer", enum |-> <<JInt(0), JInt(7), JInt(300)>>] >>
+ArrPool == << SArr(SInt), SArr(SNum), SArr(SStr), [type |-> "array", minItems |-> 1], [type |-> "array", items |-> SInt, maxItems |-> 1],
+              STuple(<<SInt, SStr>>), STuple(<<SNum, SStr>>), SFixed(SInt, 2), SSet(SInt), [type |-> "array"] >>
 PairsOf(pool, pre, defs) ==
     LET ps == SetToSeq({ p \in (DOMAIN pool) \X (DOMAIN pool) : p[1] < p[2] })
     IN [k \in DOMAIN ps |-> Comp(pre \o "-" \o ToString(ps[k][1]) \o "-" \o ToString(ps[k][2]),
@@ -81,6 +92,7 @@ TriplesOf(pool, n, pre, defs) ==
                                  << pool[ts[k][1]], pool[ts[k][2]], pool[ts[k][3]] >>, defs)]
 AllComps == IF Tier = "thorough"
             THEN Comps \o PairsOf(ObjPool, "po", NDef) \o PairsOf(ScalarPool, "ps", << >>) \o TriplesOf(ObjPool, 5, "to", NDef)
+                 \o PairsOf(NumPool, "pn", << >>) \o PairsOf(ArrPool, "pa", << >>)
             ELSE Comps
 
 Init == \E k \in DOMAIN AllComps : c = AllComps[k]
